@@ -171,7 +171,7 @@ int main(int argc, char** argv) {
 	arm_watchdog();
 	Stats top;
 	bool thorough = A.thorough();
-	g_watchdog = (int) A.geti("watchdog", thorough ? 20 : 5);
+	g_watchdog = (int) A.geti("watchdog", thorough ? 10 : 3);
 	int max_simul = (int) A.geti("simul", thorough ? 3 : 1);
 
 	if (!A.replay.empty()) {
@@ -183,10 +183,11 @@ int main(int argc, char** argv) {
 		Placement pl = placement_from(c);
 		std::string bytes = patched(p, pl);
 		vf::CrashInfo ci = vf::run_isolated(A.rundir, A.repo, g_watchdog * 4, [&]() { return workload_corrupted(bytes); });
+		std::string step0 = vf::g_last_step;
 		top.add("evaluations");
 		if (WIFEXITED(ci.status) && WEXITSTATUS(ci.status) == 3 && ci.cls.rfind("exit-", 0) == 0)
 			top.violation("saved-output-does-not-load", e.keyname + " " + describe(p, pl) + ": the file saved from the damaged model does not load", c);
-		else if (!ci.cls.empty()) top.violation(crash_key(ci, A.repo), e.keyname + " " + describe(p, pl) + ": " + ci.cls, c);
+		else if (!ci.cls.empty()) top.violation(crash_key(ci, A.repo, step0), e.keyname + " " + describe(p, pl) + ": " + ci.cls, c);
 		vf::finish(top);
 		return 0;
 	}
@@ -242,16 +243,28 @@ int main(int argc, char** argv) {
 			if (!make_plan(e, p)) return "";
 			Placement pl = placement_from(c);
 			std::string bytes = patched(p, pl);
-			vf::CrashInfo again = vf::run_isolated(A.rundir, A.repo, g_watchdog * 4, [&]() { return workload_corrupted(bytes); });
+			std::string step0 = vf::g_last_step;
 			parent.add("evaluations");
 			parent.add("distinct_nontrivial");
+			// replay before report: the first occurrences of every key are run again alone with a longer
+			// limit; later occurrences of an already confirmed key are taken as seen
+			std::string key0 = crash_key(ci, A.repo, step0);
+			static std::map<std::string, int> confirmed;
+			if (confirmed[key0] >= 2) {
+				parent.add("faulting_placements");
+				parent.violation(key0, e.keyname + " " + describe(p, pl) + ": " + ci.cls, c);
+				return "skip";
+			}
+			vf::CrashInfo again = vf::run_isolated(A.rundir, A.repo, g_watchdog * 4, [&]() { return workload_corrupted(bytes); });
+			if (!again.cls.empty()) confirmed[key0]++;
 			if (again.cls.empty() || (WIFEXITED(again.status) && WEXITSTATUS(again.status) == 3)) {
 				parent.add("faults_not_reproduced");
-				parent.note("not reproduced alone: " + crash_key(ci, A.repo) + " on " + inflight.substr(0, 300));
+				parent.note("not reproduced alone: " + crash_key(ci, A.repo, step0) + " on " + inflight.substr(0, 300));
 				return "skip";
 			}
 			parent.add("faulting_placements");
-			parent.violation(crash_key(again, A.repo), e.keyname + " " + describe(p, pl) + ": " + again.cls, c);
+			parent.add("faults_confirmed_by_solo_replay");
+			parent.violation(crash_key(again, A.repo, vf::g_last_step), e.keyname + " " + describe(p, pl) + ": " + again.cls, c);
 			return "skip";
 		},
 		top);
